@@ -743,14 +743,28 @@ pub fn mk_glyph(name: &str, tok: &str) -> Glyph {
         let closed = r.chance(2, 3);
         let n = 1 + r.below(5);
         let mut pts = Vec::new();
+        // one contour in three is a curve shape: cubic (two off-curves) or quadratic (one off-curve) segments
+        let shape: Vec<PointType> = match r.below(6) {
+            0 => vec![PointType::Line, PointType::OffCurve, PointType::OffCurve, PointType::Curve, PointType::Line],
+            1 => vec![PointType::OffCurve, PointType::QCurve, PointType::OffCurve, PointType::OffCurve, PointType::QCurve],
+            _ => Vec::new(),
+        };
+        let n = if shape.is_empty() { n } else { shape.len() };
+        let closed = closed || !shape.is_empty();
         for i in 0..n {
-            let typ = if i == 0 && !closed { PointType::Move } else { PointType::Line };
+            let typ = if !shape.is_empty() {
+                shape[i].clone()
+            } else if i == 0 && !closed {
+                PointType::Move
+            } else {
+                PointType::Line
+            };
             let withlib = r.chance(1, 8);
             let mut p = ContourPoint::new(
                 plain_num(&mut r),
                 plain_num(&mut r),
-                typ,
-                r.chance(1, 4),
+                typ.clone(),
+                r.chance(1, 4) && typ != PointType::OffCurve,
                 if r.chance(1, 6) { Some(Name::new("p").unwrap()) } else { None },
                 fresh(&mut r, withlib),
             );
@@ -771,7 +785,18 @@ pub fn mk_glyph(name: &str, tok: &str) -> Glyph {
             Image::new(
                 PathBuf::from("img.png"),
                 if r.chance(1, 2) { Some(color3(&mut r)) } else { None },
-                AffineTransform::default(),
+                if r.chance(1, 2) {
+                    AffineTransform::default()
+                } else {
+                    AffineTransform {
+                        x_scale: 0.5,
+                        xy_scale: plain_num(&mut r),
+                        yx_scale: 0.0,
+                        y_scale: -1.0,
+                        x_offset: 10.0,
+                        y_offset: plain_num(&mut r),
+                    }
+                },
             )
             .unwrap(),
         );
